@@ -1,47 +1,688 @@
 (* Property C15 -- rational, infinitesimal and linear-expression arithmetic is exact.
-   This file contains only the property theorems, each closed by `exact <lemma>` and followed by
-   Print Assumptions. The definitions they speak about are generated from /repo on every run
-   (gen/Gen_arith.v, from smt/arith/rational.cpp and smt/arith/inf_rational.h). *)
-From Coq Require Import ZArith QArith Bool.
-From ORatio Require Import gen.Gen_arith base.RatSpec proofs.Rat_Proofs.
+   This file contains only the property theorems, each closed by `exact <lemma>` and followed by Print Assumptions.
+   rat_*, irat_*, int_*, is_* are GENERATED from /repo on every run (gen/Gen_arith.v, from smt/arith/rational.cpp and
+   smt/arith/inf_rational.h); lin_*, lop_* are the hand model base/Lin.v of smt/arith/lin.cpp built on the generated
+   rational operations. Specification side: base/RatSpec.v (ext = Q with +-infinity, wf = canonical form, val, ext_add/
+   ext_mul/ext_div with None = undefined (inf-inf, 0*inf, x/0), lexicographic pairs) and, for lin, eval/lwf/lnz of Lin.v.
+   (generated from the lemma statements by `Check`; families of operators are bundled into one conjunction each because
+   Print Assumptions costs 0.4 s per theorem) *)
+From Coq Require Import ZArith NArith QArith List Bool.
+From ORatio Require Import gen.Gen_arith base.RatSpec base.Lin proofs.Rat_Proofs proofs.InfRat_Proofs proofs.Lin_Proofs.
+Import ListNotations.
 Local Open Scope Z_scope.
 
-Theorem C15_ctor_canonical : forall n d, ~ (n = 0 /\ d = 0) ->
-  wf (rat_ctor_int_int n d) /\ ext_eq (val (rat_ctor_int_int n d)) (val_frac n d).
+(* ---- smt::rational (generated functions rat_*, int_*_rat, is_*_rat) ------------------------------------------------
+   shape: canonical operands, operation defined in Q+-inf (ext_op .. = Some e)  ->  canonical result with exactly the value e *)
+
+Theorem C15_ctor_canonical :
+  forall n d : Z,
+  ~ (n = 0 /\ d = 0) -> wf (rat_ctor_int_int n d) /\ ext_eq (val (rat_ctor_int_int n d)) (val_frac n d).
 Proof. exact ctor2_spec. Qed.
 Print Assumptions C15_ctor_canonical.
 
-Theorem C15_neg_exact : forall a, wf a -> wf (rat_neg a) /\ val (rat_neg a) = ext_opp (val a).
+Theorem C15_ctor_int_spec :
+  (wf rat_ctor /\ val rat_ctor = ext_of_Z 0) /\
+  (forall n : Z, wf (rat_ctor_int n) /\ val (rat_ctor_int n) = ext_of_Z n).
+Proof. exact ctor_int_spec. Qed.
+Print Assumptions C15_ctor_int_spec.
+
+Theorem C15_consts_spec :
+  (wf rat_ZERO /\ wf rat_ONE /\ wf rat_POSITIVE_INFINITY /\ wf rat_NEGATIVE_INFINITY) /\
+  val rat_ZERO = ext_of_Z 0 /\
+  val rat_ONE = ext_of_Z 1 /\ val rat_POSITIVE_INFINITY = PInf /\ val rat_NEGATIVE_INFINITY = NInf.
+Proof. exact consts_spec. Qed.
+Print Assumptions C15_consts_spec.
+
+Theorem C15_neg_exact :
+  forall a : rat, wf a -> wf (rat_neg a) /\ val (rat_neg a) = ext_opp (val a).
 Proof. exact neg_spec. Qed.
 Print Assumptions C15_neg_exact.
 
-Theorem C15_lt_exact : forall a b, wf a -> wf b -> (rat_lt_rat a b = true <-> ext_lt (val a) (val b)).
+Theorem C15_add_spec :
+  forall (a b : rat) (e : ext),
+  wf a ->
+  wf b -> ext_add (val a) (val b) = Some e -> wf (rat_add_rat a b) /\ ext_eq (val (rat_add_rat a b)) e.
+Proof. exact add_spec. Qed.
+Print Assumptions C15_add_spec.
+
+Theorem C15_sub_spec :
+  forall (a b : rat) (e : ext),
+  wf a ->
+  wf b -> ext_sub (val a) (val b) = Some e -> wf (rat_sub_rat a b) /\ ext_eq (val (rat_sub_rat a b)) e.
+Proof. exact sub_spec. Qed.
+Print Assumptions C15_sub_spec.
+
+Theorem C15_mul_spec :
+  forall (a b : rat) (e : ext),
+  wf a ->
+  wf b -> ext_mul (val a) (val b) = Some e -> wf (rat_mul_rat a b) /\ ext_eq (val (rat_mul_rat a b)) e.
+Proof. exact mul_spec. Qed.
+Print Assumptions C15_mul_spec.
+
+Theorem C15_div_spec :
+  forall (a b : rat) (e : ext),
+  wf a ->
+  wf b -> ext_div (val a) (val b) = Some e -> wf (rat_div_rat a b) /\ ext_eq (val (rat_div_rat a b)) e.
+Proof. exact div_spec. Qed.
+Print Assumptions C15_div_spec.
+
+Theorem C15_add_int_spec :
+  forall (a : rat) (k : Z) (e : ext),
+  wf a ->
+  ext_add (val a) (ext_of_Z k) = Some e -> wf (rat_add_int a k) /\ ext_eq (val (rat_add_int a k)) e.
+Proof. exact add_int_spec. Qed.
+Print Assumptions C15_add_int_spec.
+
+Theorem C15_sub_int_spec :
+  forall (a : rat) (k : Z) (e : ext),
+  wf a ->
+  ext_sub (val a) (ext_of_Z k) = Some e -> wf (rat_sub_int a k) /\ ext_eq (val (rat_sub_int a k)) e.
+Proof. exact sub_int_spec. Qed.
+Print Assumptions C15_sub_int_spec.
+
+Theorem C15_mul_int_spec :
+  forall (a : rat) (k : Z) (e : ext),
+  wf a ->
+  ext_mul (val a) (ext_of_Z k) = Some e -> wf (rat_mul_int a k) /\ ext_eq (val (rat_mul_int a k)) e.
+Proof. exact mul_int_spec. Qed.
+Print Assumptions C15_mul_int_spec.
+
+Theorem C15_div_int_spec :
+  forall (a : rat) (k : Z) (e : ext),
+  wf a ->
+  ext_div (val a) (ext_of_Z k) = Some e -> wf (rat_div_int a k) /\ ext_eq (val (rat_div_int a k)) e.
+Proof. exact div_int_spec. Qed.
+Print Assumptions C15_div_int_spec.
+
+Theorem C15_int_add_spec :
+  forall (k : Z) (b : rat) (e : ext),
+  wf b ->
+  ext_add (ext_of_Z k) (val b) = Some e -> wf (int_add_rat k b) /\ ext_eq (val (int_add_rat k b)) e.
+Proof. exact int_add_spec. Qed.
+Print Assumptions C15_int_add_spec.
+
+Theorem C15_int_sub_spec :
+  forall (k : Z) (b : rat) (e : ext),
+  wf b ->
+  ext_sub (ext_of_Z k) (val b) = Some e -> wf (int_sub_rat k b) /\ ext_eq (val (int_sub_rat k b)) e.
+Proof. exact int_sub_spec. Qed.
+Print Assumptions C15_int_sub_spec.
+
+Theorem C15_int_mul_spec :
+  forall (k : Z) (b : rat) (e : ext),
+  wf b ->
+  ext_mul (ext_of_Z k) (val b) = Some e -> wf (int_mul_rat k b) /\ ext_eq (val (int_mul_rat k b)) e.
+Proof. exact int_mul_spec. Qed.
+Print Assumptions C15_int_mul_spec.
+
+Theorem C15_int_div_spec :
+  forall (k : Z) (b : rat) (e : ext),
+  wf b ->
+  ext_div (ext_of_Z k) (val b) = Some e -> wf (int_div_rat k b) /\ ext_eq (val (int_div_rat k b)) e.
+Proof. exact int_div_spec. Qed.
+Print Assumptions C15_int_div_spec.
+
+Theorem C15_rat_compound_exact :
+  forall (a b : rat) (k : Z),
+  wf a ->
+  wf b ->
+  (forall e : ext,
+  ext_add (val a) (val b) = Some e -> wf (rat_addeq_rat a b) /\ ext_eq (val (rat_addeq_rat a b)) e) /\
+  (forall e : ext,
+  ext_sub (val a) (val b) = Some e -> wf (rat_subeq_rat a b) /\ ext_eq (val (rat_subeq_rat a b)) e) /\
+  (forall e : ext,
+  ext_mul (val a) (val b) = Some e -> wf (rat_muleq_rat a b) /\ ext_eq (val (rat_muleq_rat a b)) e) /\
+  (forall e : ext,
+  ext_div (val a) (val b) = Some e -> wf (rat_diveq_rat a b) /\ ext_eq (val (rat_diveq_rat a b)) e) /\
+  (forall e : ext,
+  ext_add (val a) (ext_of_Z k) = Some e -> wf (rat_addeq_int a k) /\ ext_eq (val (rat_addeq_int a k)) e) /\
+  (forall e : ext,
+  ext_sub (val a) (ext_of_Z k) = Some e -> wf (rat_subeq_int a k) /\ ext_eq (val (rat_subeq_int a k)) e) /\
+  (forall e : ext,
+  ext_mul (val a) (ext_of_Z k) = Some e -> wf (rat_muleq_int a k) /\ ext_eq (val (rat_muleq_int a k)) e) /\
+  (forall e : ext,
+  ext_div (val a) (ext_of_Z k) = Some e -> wf (rat_diveq_int a k) /\ ext_eq (val (rat_diveq_int a k)) e).
+Proof. exact rat_compound_exact. Qed.
+Print Assumptions C15_rat_compound_exact.
+
+Theorem C15_rat_compound_is_binary :
+  forall (a b : rat) (k : Z),
+  wf a ->
+  wf b ->
+  (ext_add (val a) (val b) <> None -> rat_addeq_rat a b = rat_add_rat a b) /\
+  (ext_sub (val a) (val b) <> None -> rat_subeq_rat a b = rat_sub_rat a b) /\
+  (ext_mul (val a) (val b) <> None -> rat_muleq_rat a b = rat_mul_rat a b) /\
+  (ext_div (val a) (val b) <> None -> rat_diveq_rat a b = rat_div_rat a b) /\
+  rat_addeq_int a k = rat_add_int a k /\
+  rat_subeq_int a k = rat_sub_int a k /\
+  (ext_mul (val a) (ext_of_Z k) <> None -> rat_muleq_int a k = rat_mul_int a k) /\
+  (ext_div (val a) (ext_of_Z k) <> None -> rat_diveq_int a k = rat_div_int a k).
+Proof. exact rat_compound_is_binary. Qed.
+Print Assumptions C15_rat_compound_is_binary.
+
+Theorem C15_lt_exact :
+  forall a b : rat, wf a -> wf b -> rat_lt_rat a b = true <-> ext_lt (val a) (val b).
 Proof. exact lt_spec. Qed.
 Print Assumptions C15_lt_exact.
 
-Theorem C15_le_exact : forall a b, wf a -> wf b -> (rat_le_rat a b = true <-> ext_le (val a) (val b)).
+Theorem C15_le_exact :
+  forall a b : rat, wf a -> wf b -> rat_le_rat a b = true <-> ext_le (val a) (val b).
 Proof. exact le_spec. Qed.
 Print Assumptions C15_le_exact.
 
-Theorem C15_eq_exact : forall a b, wf a -> wf b -> (rat_eq_rat a b = true <-> ext_eq (val a) (val b)).
+Theorem C15_eq_exact :
+  forall a b : rat, wf a -> wf b -> rat_eq_rat a b = true <-> ext_eq (val a) (val b).
 Proof. exact eq_spec. Qed.
 Print Assumptions C15_eq_exact.
 
-Theorem C15_ne_exact : forall a b, wf a -> wf b -> (rat_ne_rat a b = true <-> ~ ext_eq (val a) (val b)).
+Theorem C15_ne_exact :
+  forall a b : rat, wf a -> wf b -> rat_ne_rat a b = true <-> ~ ext_eq (val a) (val b).
 Proof. exact ne_spec. Qed.
 Print Assumptions C15_ne_exact.
 
-Theorem C15_ge_exact : forall a b, wf a -> wf b -> (rat_ge_rat a b = true <-> ext_le (val b) (val a)).
+Theorem C15_ge_exact :
+  forall a b : rat, wf a -> wf b -> rat_ge_rat a b = true <-> ext_le (val b) (val a).
 Proof. exact ge_spec. Qed.
 Print Assumptions C15_ge_exact.
 
-Theorem C15_gt_exact : forall a b, wf a -> wf b -> (rat_gt_rat a b = true <-> ext_lt (val b) (val a)).
+Theorem C15_gt_exact :
+  forall a b : rat, wf a -> wf b -> rat_gt_rat a b = true <-> ext_lt (val b) (val a).
 Proof. exact gt_spec. Qed.
 Print Assumptions C15_gt_exact.
 
-Theorem C15_order_total : forall a b, wf a -> wf b ->
-  (rat_lt_rat a b = true /\ rat_eq_rat a b = false /\ rat_gt_rat a b = false) \/
-  (rat_lt_rat a b = false /\ rat_eq_rat a b = true /\ rat_gt_rat a b = false) \/
-  (rat_lt_rat a b = false /\ rat_eq_rat a b = false /\ rat_gt_rat a b = true).
+Theorem C15_rat_int_cmp_spec :
+  forall (a : rat) (k : Z),
+  wf a ->
+  (rat_lt_int a k = true <-> ext_lt (val a) (ext_of_Z k)) /\
+  (rat_le_int a k = true <-> ext_le (val a) (ext_of_Z k)) /\
+  (rat_eq_int a k = true <-> ext_eq (val a) (ext_of_Z k)) /\
+  (rat_ne_int a k = true <-> ~ ext_eq (val a) (ext_of_Z k)) /\
+  (rat_ge_int a k = true <-> ext_le (ext_of_Z k) (val a)) /\
+  (rat_gt_int a k = true <-> ext_lt (ext_of_Z k) (val a)).
+Proof. exact rat_int_cmp_spec. Qed.
+Print Assumptions C15_rat_int_cmp_spec.
+
+Theorem C15_order_total :
+  forall a b : rat,
+  wf a ->
+  wf b ->
+  rat_lt_rat a b = true /\ rat_eq_rat a b = false /\ rat_gt_rat a b = false \/
+  rat_lt_rat a b = false /\ rat_eq_rat a b = true /\ rat_gt_rat a b = false \/
+  rat_lt_rat a b = false /\ rat_eq_rat a b = false /\ rat_gt_rat a b = true.
 Proof. exact rat_order_total. Qed.
 Print Assumptions C15_order_total.
+
+Theorem C15_rat_lt_trans :
+  forall a b c : rat,
+  wf a -> wf b -> wf c -> rat_lt_rat a b = true -> rat_lt_rat b c = true -> rat_lt_rat a c = true.
+Proof. exact rat_lt_trans. Qed.
+Print Assumptions C15_rat_lt_trans.
+
+Theorem C15_wf_val_inj :
+  forall a b : rat, wf a -> wf b -> ext_eq (val a) (val b) -> a = b.
+Proof. exact wf_val_inj. Qed.
+Print Assumptions C15_wf_val_inj.
+
+Theorem C15_rat_predicates_spec :
+  forall a : rat,
+  wf a ->
+  (is_zero_rat a = true <-> ext_eq (val a) (Fin 0)) /\
+  (is_positive_rat a = true <-> ext_lt (Fin 0) (val a)) /\
+  (is_negative_rat a = true <-> ext_lt (val a) (Fin 0)) /\
+  (is_positive_or_zero_rat a = true <-> ext_le (Fin 0) (val a)) /\
+  (is_negative_or_zero_rat a = true <-> ext_le (val a) (Fin 0)) /\
+  (is_infinite_rat a = true <-> val a = PInf \/ val a = NInf) /\
+  (is_positive_infinite_rat a = true <-> val a = PInf) /\
+  (is_negative_infinite_rat a = true <-> val a = NInf) /\
+  (is_integer_rat a = true <-> (exists z : Z, ext_eq (val a) (ext_of_Z z))).
+Proof. exact rat_predicates_spec. Qed.
+Print Assumptions C15_rat_predicates_spec.
+
+Theorem C15_numerator_denominator_spec :
+  forall a : rat, a = {| rat_num := rat_numerator a; rat_den := rat_denominator a |}.
+Proof. exact numerator_denominator_spec. Qed.
+Print Assumptions C15_numerator_denominator_spec.
+
+(* ---- smt::inf_rational (generated functions irat_*, rat_*_irat, int_*_irat, is_*_irat) ---------------------------------
+   values are pairs (r, i) = r + i*eps; arithmetic is component-wise, k/(r + i eps) = k/r - (k i/r^2) eps; the order is
+   lexicographic *)
+
+Theorem C15_ictors_spec :
+  (forall k : Z, iwf (irat_ctor_int k) /\ ival (irat_ctor_int k) = iext_of (ext_of_Z k)) /\
+  (forall n d : Z,
+  ~ (n = 0 /\ d = 0) ->
+  iwf (irat_ctor_int_int n d) /\ lex_eq (ival (irat_ctor_int_int n d)) (iext_of (val_frac n d))) /\
+  (forall r : rat, wf r -> iwf (irat_ctor_rat r) /\ ival (irat_ctor_rat r) = iext_of (val r)) /\
+  (forall (r : rat) (k : Z),
+  wf r -> iwf (irat_ctor_rat_int r k) /\ ival (irat_ctor_rat_int r k) = (val r, ext_of_Z k)) /\
+  (forall r i : rat,
+  wf r -> wf i -> iwf (irat_ctor_rat_rat r i) /\ ival (irat_ctor_rat_rat r i) = (val r, val i)).
+Proof. exact ictors_spec. Qed.
+Print Assumptions C15_ictors_spec.
+
+Theorem C15_iadd_spec :
+  forall (a b : irat) (e : ext * ext),
+  iwf a ->
+  iwf b ->
+  iext_add (ival a) (ival b) = Some e -> iwf (irat_add_irat a b) /\ lex_eq (ival (irat_add_irat a b)) e.
+Proof. exact iadd_spec. Qed.
+Print Assumptions C15_iadd_spec.
+
+Theorem C15_isub_spec :
+  forall (a b : irat) (e : ext * ext),
+  iwf a ->
+  iwf b ->
+  iext_sub (ival a) (ival b) = Some e -> iwf (irat_sub_irat a b) /\ lex_eq (ival (irat_sub_irat a b)) e.
+Proof. exact isub_spec. Qed.
+Print Assumptions C15_isub_spec.
+
+Theorem C15_iadd_rat_spec :
+  forall (a : irat) (r : rat) (e : ext * ext),
+  iwf a ->
+  wf r ->
+  iext_add (ival a) (iext_of (val r)) = Some e ->
+  iwf (irat_add_rat a r) /\ lex_eq (ival (irat_add_rat a r)) e.
+Proof. exact iadd_rat_spec. Qed.
+Print Assumptions C15_iadd_rat_spec.
+
+Theorem C15_iadd_int_spec :
+  forall (a : irat) (k : Z) (e : ext * ext),
+  iwf a ->
+  iext_add (ival a) (iext_of (ext_of_Z k)) = Some e ->
+  iwf (irat_add_int a k) /\ lex_eq (ival (irat_add_int a k)) e.
+Proof. exact iadd_int_spec. Qed.
+Print Assumptions C15_iadd_int_spec.
+
+Theorem C15_rat_add_irat_spec :
+  forall (r : rat) (b : irat) (e : ext * ext),
+  wf r ->
+  iwf b ->
+  iext_add (iext_of (val r)) (ival b) = Some e ->
+  iwf (rat_add_irat r b) /\ lex_eq (ival (rat_add_irat r b)) e.
+Proof. exact rat_add_irat_spec. Qed.
+Print Assumptions C15_rat_add_irat_spec.
+
+Theorem C15_int_add_irat_spec :
+  forall (k : Z) (b : irat) (e : ext * ext),
+  iwf b ->
+  iext_add (iext_of (ext_of_Z k)) (ival b) = Some e ->
+  iwf (int_add_irat k b) /\ lex_eq (ival (int_add_irat k b)) e.
+Proof. exact int_add_irat_spec. Qed.
+Print Assumptions C15_int_add_irat_spec.
+
+Theorem C15_isub_rat_spec :
+  forall (a : irat) (r : rat) (e : ext * ext),
+  iwf a ->
+  wf r ->
+  iext_sub (ival a) (iext_of (val r)) = Some e ->
+  iwf (irat_sub_rat a r) /\ lex_eq (ival (irat_sub_rat a r)) e.
+Proof. exact isub_rat_spec. Qed.
+Print Assumptions C15_isub_rat_spec.
+
+Theorem C15_isub_int_spec :
+  forall (a : irat) (k : Z) (e : ext * ext),
+  iwf a ->
+  iext_sub (ival a) (iext_of (ext_of_Z k)) = Some e ->
+  iwf (irat_sub_int a k) /\ lex_eq (ival (irat_sub_int a k)) e.
+Proof. exact isub_int_spec. Qed.
+Print Assumptions C15_isub_int_spec.
+
+Theorem C15_rat_sub_irat_spec :
+  forall (r : rat) (b : irat) (e : ext * ext),
+  wf r ->
+  iwf b ->
+  iext_sub (iext_of (val r)) (ival b) = Some e ->
+  iwf (rat_sub_irat r b) /\ lex_eq (ival (rat_sub_irat r b)) e.
+Proof. exact rat_sub_irat_spec. Qed.
+Print Assumptions C15_rat_sub_irat_spec.
+
+Theorem C15_int_sub_irat_spec :
+  forall (k : Z) (b : irat) (e : ext * ext),
+  iwf b ->
+  iext_sub (iext_of (ext_of_Z k)) (ival b) = Some e ->
+  iwf (int_sub_irat k b) /\ lex_eq (ival (int_sub_irat k b)) e.
+Proof. exact int_sub_irat_spec. Qed.
+Print Assumptions C15_int_sub_irat_spec.
+
+Theorem C15_ineg_spec :
+  forall a : irat, iwf a -> iwf (irat_neg a) /\ ival (irat_neg a) = iext_opp (ival a).
+Proof. exact ineg_spec. Qed.
+Print Assumptions C15_ineg_spec.
+
+Theorem C15_imul_rat_spec :
+  forall (a : irat) (r : rat) (e : ext * ext),
+  iwf a ->
+  wf r ->
+  iext_scale (ival a) (val r) = Some e -> iwf (irat_mul_rat a r) /\ lex_eq (ival (irat_mul_rat a r)) e.
+Proof. exact imul_rat_spec. Qed.
+Print Assumptions C15_imul_rat_spec.
+
+Theorem C15_imul_int_spec :
+  forall (a : irat) (k : Z) (e : ext * ext),
+  iwf a ->
+  iext_scale (ival a) (ext_of_Z k) = Some e ->
+  iwf (irat_mul_int a k) /\ lex_eq (ival (irat_mul_int a k)) e.
+Proof. exact imul_int_spec. Qed.
+Print Assumptions C15_imul_int_spec.
+
+Theorem C15_rat_mul_irat_spec :
+  forall (r : rat) (b : irat) (e : ext * ext),
+  wf r ->
+  iwf b ->
+  iext_lscale (val r) (ival b) = Some e -> iwf (rat_mul_irat r b) /\ lex_eq (ival (rat_mul_irat r b)) e.
+Proof. exact rat_mul_irat_spec. Qed.
+Print Assumptions C15_rat_mul_irat_spec.
+
+Theorem C15_int_mul_irat_spec :
+  forall (k : Z) (b : irat) (e : ext * ext),
+  iwf b ->
+  iext_lscale (ext_of_Z k) (ival b) = Some e ->
+  iwf (int_mul_irat k b) /\ lex_eq (ival (int_mul_irat k b)) e.
+Proof. exact int_mul_irat_spec. Qed.
+Print Assumptions C15_int_mul_irat_spec.
+
+Theorem C15_idiv_rat_spec :
+  forall (a : irat) (r : rat) (e : ext * ext),
+  iwf a ->
+  wf r ->
+  iext_divs (ival a) (val r) = Some e -> iwf (irat_div_rat a r) /\ lex_eq (ival (irat_div_rat a r)) e.
+Proof. exact idiv_rat_spec. Qed.
+Print Assumptions C15_idiv_rat_spec.
+
+Theorem C15_idiv_int_spec :
+  forall (a : irat) (k : Z) (e : ext * ext),
+  iwf a ->
+  iext_divs (ival a) (ext_of_Z k) = Some e -> iwf (irat_div_int a k) /\ lex_eq (ival (irat_div_int a k)) e.
+Proof. exact idiv_int_spec. Qed.
+Print Assumptions C15_idiv_int_spec.
+
+Theorem C15_rat_div_irat_spec :
+  forall (k : rat) (b : irat) (e : ext * ext),
+  wf k ->
+  iwf b ->
+  iext_ldiv (val k) (ival b) = Some e -> iwf (rat_div_irat k b) /\ lex_eq (ival (rat_div_irat k b)) e.
+Proof. exact rat_div_irat_spec. Qed.
+Print Assumptions C15_rat_div_irat_spec.
+
+Theorem C15_int_div_irat_spec :
+  forall (k : Z) (b : irat) (e : ext * ext),
+  iwf b ->
+  iext_ldiv (ext_of_Z k) (ival b) = Some e -> iwf (int_div_irat k b) /\ lex_eq (ival (int_div_irat k b)) e.
+Proof. exact int_div_irat_spec. Qed.
+Print Assumptions C15_int_div_irat_spec.
+
+Theorem C15_irat_compound_is_binary :
+  forall (a b : irat) (r : rat) (k : Z),
+  iwf a ->
+  iwf b ->
+  wf r ->
+  (iext_add (ival a) (ival b) <> None -> irat_addeq_irat a b = irat_add_irat a b) /\
+  (iext_add (ival a) (iext_of (val r)) <> None -> irat_addeq_rat a r = irat_add_rat a r) /\
+  (iext_sub (ival a) (ival b) <> None -> irat_subeq_irat a b = irat_sub_irat a b) /\
+  (iext_sub (ival a) (iext_of (val r)) <> None -> irat_subeq_rat a r = irat_sub_rat a r) /\
+  (iext_scale (ival a) (val r) <> None -> irat_muleq_rat a r = irat_mul_rat a r) /\
+  (iext_scale (ival a) (ext_of_Z k) <> None -> irat_muleq_int a k = irat_mul_int a k) /\
+  (iext_divs (ival a) (val r) <> None -> irat_diveq_rat a r = irat_div_rat a r) /\
+  (iext_divs (ival a) (ext_of_Z k) <> None -> irat_diveq_int a k = irat_div_int a k) /\
+  irat_addeq_int a k = irat_add_int a k /\ irat_subeq_int a k = irat_sub_int a k.
+Proof. exact irat_compound_is_binary. Qed.
+Print Assumptions C15_irat_compound_is_binary.
+
+Theorem C15_irat_cmp_spec :
+  forall a b : irat,
+  iwf a ->
+  iwf b ->
+  (irat_lt_irat a b = true <-> lex_lt (ival a) (ival b)) /\
+  (irat_le_irat a b = true <-> lex_le (ival a) (ival b)) /\
+  (irat_eq_irat a b = true <-> lex_eq (ival a) (ival b)) /\
+  (irat_ne_irat a b = true <-> ~ lex_eq (ival a) (ival b)) /\
+  (irat_ge_irat a b = true <-> lex_le (ival b) (ival a)) /\
+  (irat_gt_irat a b = true <-> lex_lt (ival b) (ival a)).
+Proof. exact irat_cmp_spec. Qed.
+Print Assumptions C15_irat_cmp_spec.
+
+Theorem C15_irat_rat_cmp_spec :
+  forall (a : irat) (r : rat),
+  iwf a ->
+  wf r ->
+  (irat_lt_rat a r = true <-> lex_lt (ival a) (iext_of (val r))) /\
+  (irat_le_rat a r = true <-> lex_le (ival a) (iext_of (val r))) /\
+  (irat_eq_rat a r = true <-> lex_eq (ival a) (iext_of (val r))) /\
+  (irat_ne_rat a r = true <-> ~ lex_eq (ival a) (iext_of (val r))) /\
+  (irat_ge_rat a r = true <-> lex_le (iext_of (val r)) (ival a)) /\
+  (irat_gt_rat a r = true <-> lex_lt (iext_of (val r)) (ival a)).
+Proof. exact irat_rat_cmp_spec. Qed.
+Print Assumptions C15_irat_rat_cmp_spec.
+
+Theorem C15_irat_int_cmp_spec :
+  forall (a : irat) (k : Z),
+  iwf a ->
+  (irat_lt_int a k = true <-> lex_lt (ival a) (iext_of (ext_of_Z k))) /\
+  (irat_le_int a k = true <-> lex_le (ival a) (iext_of (ext_of_Z k))) /\
+  (irat_eq_int a k = true <-> lex_eq (ival a) (iext_of (ext_of_Z k))) /\
+  (irat_ne_int a k = true <-> ~ lex_eq (ival a) (iext_of (ext_of_Z k))) /\
+  (irat_ge_int a k = true <-> lex_le (iext_of (ext_of_Z k)) (ival a)) /\
+  (irat_gt_int a k = true <-> lex_lt (iext_of (ext_of_Z k)) (ival a)).
+Proof. exact irat_int_cmp_spec. Qed.
+Print Assumptions C15_irat_int_cmp_spec.
+
+Theorem C15_irat_order_total :
+  forall a b : irat,
+  iwf a ->
+  iwf b ->
+  irat_lt_irat a b = true /\ irat_eq_irat a b = false /\ irat_gt_irat a b = false \/
+  irat_lt_irat a b = false /\ irat_eq_irat a b = true /\ irat_gt_irat a b = false \/
+  irat_lt_irat a b = false /\ irat_eq_irat a b = false /\ irat_gt_irat a b = true.
+Proof. exact irat_order_total. Qed.
+Print Assumptions C15_irat_order_total.
+
+Theorem C15_irat_lt_trans :
+  forall a b c : irat,
+  iwf a -> iwf b -> iwf c -> irat_lt_irat a b = true -> irat_lt_irat b c = true -> irat_lt_irat a c = true.
+Proof. exact irat_lt_trans. Qed.
+Print Assumptions C15_irat_lt_trans.
+
+Theorem C15_irat_predicates_spec :
+  forall a : irat,
+  iwf a ->
+  (is_zero_irat a = true <-> lex_eq (ival a) izero) /\
+  (is_positive_irat a = true <-> lex_lt izero (ival a)) /\
+  (is_negative_irat a = true <-> lex_lt (ival a) izero) /\
+  (is_positive_or_zero_irat a = true <-> lex_le izero (ival a)) /\
+  (is_negative_or_zero_irat a = true <-> lex_le (ival a) izero) /\
+  (is_infinite_irat a = true <-> fst (ival a) = PInf \/ fst (ival a) = NInf) /\
+  (is_positive_infinite_irat a = true <-> fst (ival a) = PInf) /\
+  (is_negative_infinite_irat a = true <-> fst (ival a) = NInf).
+Proof. exact irat_predicates_spec. Qed.
+Print Assumptions C15_irat_predicates_spec.
+
+Theorem C15_iget_spec :
+  forall a : irat, a = {| irat_rat := irat_get_rational a; irat_inf := irat_get_infinitesimal a |}.
+Proof. exact iget_spec. Qed.
+Print Assumptions C15_iget_spec.
+
+(* ---- smt::lin (hand model base/Lin.v, tied to lin.cpp by the differential of tools/checks/c15.py) -----------------------
+   for every valuation rho the operators act on eval rho as the mathematical operations (known term included), keep the
+   map invariant (strictly increasing keys) and canonical finite coefficients (lwf), and keep the map zero-free (lnz) where
+   the code guarantees it; lop_run: any sequence of the 16 operator forms applied to one object *)
+
+Theorem C15_lin_ctors_spec :
+  (lwf lin_ctor /\ (forall rho : var -> Q, (eval rho lin_ctor == 0)%Q) /\ lnz lin_ctor) /\
+  (forall k : rat,
+  finite k ->
+  lwf (lin_ctor_rat k) /\
+  (forall rho : var -> Q, (eval rho (lin_ctor_rat k) == qval k)%Q) /\ lnz (lin_ctor_rat k)) /\
+  (forall (v : var) (c : rat),
+  finite c ->
+  lwf (lin_ctor_var v c) /\
+  (forall rho : var -> Q, (eval rho (lin_ctor_var v c) == qval c * rho v)%Q) /\
+  (nonzero c -> lnz (lin_ctor_var v c))).
+Proof. exact lin_ctors_spec. Qed.
+Print Assumptions C15_lin_ctors_spec.
+
+Theorem C15_lin_add_lin_spec :
+  forall l r : lin,
+  lwf l ->
+  lwf r ->
+  lwf (lin_add_lin l r) /\
+  (forall rho : var -> Q, (eval rho (lin_add_lin l r) == eval rho l + eval rho r)%Q) /\
+  (lnz l -> lnz r -> lnz (lin_add_lin l r)).
+Proof. exact lin_add_lin_spec. Qed.
+Print Assumptions C15_lin_add_lin_spec.
+
+Theorem C15_lin_add_rat_spec :
+  forall (l : lin) (k : rat),
+  lwf l ->
+  finite k ->
+  lwf (lin_add_rat l k) /\
+  (forall rho : var -> Q, (eval rho (lin_add_rat l k) == eval rho l + qval k)%Q) /\
+  lin_vars (lin_add_rat l k) = lin_vars l.
+Proof. exact lin_add_rat_spec. Qed.
+Print Assumptions C15_lin_add_rat_spec.
+
+Theorem C15_rat_add_lin_spec :
+  forall (k : rat) (l : lin),
+  finite k ->
+  lwf l ->
+  lwf (rat_add_lin k l) /\
+  (forall rho : var -> Q, (eval rho (rat_add_lin k l) == qval k + eval rho l)%Q) /\
+  lin_vars (rat_add_lin k l) = lin_vars l.
+Proof. exact rat_add_lin_spec. Qed.
+Print Assumptions C15_rat_add_lin_spec.
+
+Theorem C15_lin_sub_lin_spec :
+  forall l r : lin,
+  lwf l ->
+  lwf r ->
+  lwf (lin_sub_lin l r) /\
+  (forall rho : var -> Q, (eval rho (lin_sub_lin l r) == eval rho l - eval rho r)%Q) /\
+  (lnz l -> lnz r -> lnz (lin_sub_lin l r)).
+Proof. exact lin_sub_lin_spec. Qed.
+Print Assumptions C15_lin_sub_lin_spec.
+
+Theorem C15_lin_sub_rat_spec :
+  forall (l : lin) (k : rat),
+  lwf l ->
+  finite k ->
+  lwf (lin_sub_rat l k) /\
+  (forall rho : var -> Q, (eval rho (lin_sub_rat l k) == eval rho l - qval k)%Q) /\
+  lin_vars (lin_sub_rat l k) = lin_vars l.
+Proof. exact lin_sub_rat_spec. Qed.
+Print Assumptions C15_lin_sub_rat_spec.
+
+Theorem C15_rat_sub_lin_spec :
+  forall (k : rat) (l : lin),
+  finite k ->
+  lwf l ->
+  lwf (rat_sub_lin k l) /\
+  (forall rho : var -> Q, (eval rho (rat_sub_lin k l) == qval k - eval rho l)%Q) /\
+  (lnz l -> lnz (rat_sub_lin k l)).
+Proof. exact rat_sub_lin_spec. Qed.
+Print Assumptions C15_rat_sub_lin_spec.
+
+Theorem C15_lin_neg_spec :
+  forall l : lin,
+  lwf l ->
+  lwf (lin_neg l) /\
+  (forall rho : var -> Q, (eval rho (lin_neg l) == - eval rho l)%Q) /\
+  (lnz l -> lnz (lin_neg l)) /\ lin_vars (lin_neg l) = m_map rat_neg (lin_vars l).
+Proof. exact lin_neg_spec. Qed.
+Print Assumptions C15_lin_neg_spec.
+
+Theorem C15_lin_mul_rat_spec :
+  forall (l : lin) (k : rat),
+  lwf l ->
+  finite k ->
+  lwf (lin_mul_rat l k) /\
+  (forall rho : var -> Q, (eval rho (lin_mul_rat l k) == eval rho l * qval k)%Q) /\
+  (nonzero k -> lnz l -> lnz (lin_mul_rat l k)).
+Proof. exact lin_mul_rat_spec. Qed.
+Print Assumptions C15_lin_mul_rat_spec.
+
+Theorem C15_rat_mul_lin_spec :
+  forall (k : rat) (l : lin),
+  finite k ->
+  lwf l ->
+  lwf (rat_mul_lin k l) /\
+  (forall rho : var -> Q, (eval rho (rat_mul_lin k l) == qval k * eval rho l)%Q) /\
+  (nonzero k -> lnz l -> lnz (rat_mul_lin k l)).
+Proof. exact rat_mul_lin_spec. Qed.
+Print Assumptions C15_rat_mul_lin_spec.
+
+Theorem C15_lin_div_rat_spec :
+  forall (l : lin) (k : rat),
+  lwf l ->
+  finite k ->
+  nonzero k ->
+  lwf (lin_div_rat l k) /\
+  (forall rho : var -> Q, (eval rho (lin_div_rat l k) == eval rho l / qval k)%Q) /\
+  (lnz l -> lnz (lin_div_rat l k)).
+Proof. exact lin_div_rat_spec. Qed.
+Print Assumptions C15_lin_div_rat_spec.
+
+Theorem C15_lin_div_inf_spec :
+  forall (l : lin) (k : rat),
+  lwf l ->
+  wf k ->
+  is_infinite_rat k = true ->
+  lwf (lin_div_rat l k) /\ (forall rho : var -> Q, (eval rho (lin_div_rat l k) == 0)%Q).
+Proof. exact lin_div_inf_spec. Qed.
+Print Assumptions C15_lin_div_inf_spec.
+
+Theorem C15_lin_compound_is_binary :
+  forall (l r : lin) (k : rat),
+  lin_addeq_lin l r = lin_add_lin l r /\
+  lin_addeq_rat l k = lin_add_rat l k /\
+  lin_subeq_lin l r = lin_sub_lin l r /\
+  lin_subeq_rat l k = lin_sub_rat l k /\
+  (rat_eq_rat k rat_ZERO = false -> lin_muleq_rat l k = lin_mul_rat l k) /\
+  (rat_eq_rat k rat_ZERO = true -> lin_muleq_rat l k = {| lin_vars := []; lin_known := rat_ZERO |}) /\
+  (is_infinite_rat k = false -> lin_diveq_rat l k = lin_div_rat l k).
+Proof. exact lin_compound_is_binary. Qed.
+Print Assumptions C15_lin_compound_is_binary.
+
+Theorem C15_lin_muleq_rat_spec :
+  forall (l : lin) (k : rat),
+  lwf l ->
+  finite k ->
+  lwf (lin_muleq_rat l k) /\
+  (forall rho : var -> Q, (eval rho (lin_muleq_rat l k) == eval rho l * qval k)%Q) /\
+  (lnz l -> lnz (lin_muleq_rat l k)).
+Proof. exact lin_muleq_rat_spec. Qed.
+Print Assumptions C15_lin_muleq_rat_spec.
+
+Theorem C15_lin_diveq_rat_spec :
+  forall (l : lin) (k : rat),
+  lwf l ->
+  finite k ->
+  nonzero k ->
+  lwf (lin_diveq_rat l k) /\
+  (forall rho : var -> Q, (eval rho (lin_diveq_rat l k) == eval rho l / qval k)%Q) /\
+  (lnz l -> lnz (lin_diveq_rat l k)).
+Proof. exact lin_diveq_rat_spec. Qed.
+Print Assumptions C15_lin_diveq_rat_spec.
+
+Theorem C15_lin_diveq_inf_spec :
+  forall (l : lin) (k : rat),
+  lwf l ->
+  wf k ->
+  is_infinite_rat k = true ->
+  lwf (lin_diveq_rat l k) /\
+  (forall rho : var -> Q, (eval rho (lin_diveq_rat l k) == 0)%Q) /\ lin_vars (lin_diveq_rat l k) = [].
+Proof. exact lin_diveq_inf_spec. Qed.
+Print Assumptions C15_lin_diveq_inf_spec.
+
+Theorem C15_lin_neg_is_minus_one :
+  forall l : lin, lwf l -> lin_neg l = lin_mul_rat l (rat_ctor_int (-1)).
+Proof. exact lin_neg_is_minus_one. Qed.
+Print Assumptions C15_lin_neg_is_minus_one.
+
+Theorem C15_lop_run_spec :
+  forall (ops : list lop) (l : lin),
+  Forall lop_ok ops ->
+  lwf l ->
+  lwf (fold_left lop_step ops l) /\
+  (forall rho : var -> Q, (eval rho (fold_left lop_step ops l) == fold_left (lop_sem rho) ops (eval rho l))%Q) /\
+  (Forall lop_nzok ops -> lnz l -> lnz (fold_left lop_step ops l)).
+Proof. exact lop_run_spec. Qed.
+Print Assumptions C15_lop_run_spec.
